@@ -28,6 +28,8 @@ def enc(v, t, dom, meta):
         return flit(v) if dom == "F" else qlit(v)
     if t == "B":
         return "true" if v else "false"
+    if t == "S":
+        return '"%s"%%string' % v
     if t[0] == "rec":
         fs = meta["records"][t[1]]
         ts = meta["record_types"][t[1]]
@@ -44,6 +46,8 @@ def cmpname(t, dom, exact=False):
         return "feq" if dom == "F" else ("qexact" if exact else "qclose")
     if t == "B":
         return "Bool.eqb"
+    if t == "S":
+        return "String.eqb"
     if t[0] == "rec":
         return "%s%s_cmp" % ("F" if dom == "F" else "", t[1])
     if t[0] == "list":
@@ -55,7 +59,7 @@ def cmpname(t, dom, exact=False):
 
 def header(dom, meta, genmod, exact=False):
     p = "F" if dom == "F" else ""
-    out = ["From Coq Require Import QArith Qround Qabs Qminmax ZArith NArith List Bool PrimFloat.",
+    out = ["From Coq Require Import QArith Qround Qabs Qminmax ZArith NArith List Bool PrimFloat String.",
            "From V.Lib Require Import Corr PyNum.", "From G Require Import %s." % genmod,
            "Import ListNotations.", "Open Scope Q_scope." if dom == "Q" else ""]
     for c, fs in meta["records"].items():
